@@ -30,6 +30,30 @@ def assigned_value(f, target_text):
     return out
 
 
+def rule_dep_miu(report, prog, rule='C19-R1'):
+    """The NFC-DEP payload limit each role sends with derives from the length reduction the *peer* announced (ATR_RES / ATR_REQ)."""
+    for q, src_var, dec in ((DEP + '.Initiator.activate', 'atr_res', 'ATR_RES'), (DEP + '.Target.activate', 'atr_req', 'ATR_REQ')):
+        g = prog.func(q)
+        sts = assigned_value(g, 'self.miu')
+        okk = len(sts) == 1 and ('%s.lr' % src_var) in norm(sts[0].value) and 'self.lr' not in norm(sts[0].value)
+        report.check(okk, rule, key(q, 'self.miu derives from the peer\'s %s.lr' % src_var), g.loc(sts[0]) if sts else g.loc(),
+                     'NFC-DEP payload limit is not derived from the length reduction announced by the peer: %s' %
+                     [norm(s.value) for s in sts])
+        defs = assigned_value(g, src_var)
+        srcs = sorted(set(norm(s.value) for s in defs))
+        if dec == 'ATR_RES':
+            okk = srcs == ['ATR_RES.decode(self.target.atr_res)', 'None', 'self.send_req_recv_res(atr_req, 1.0)'] or \
+                srcs == ['ATR_RES.decode(self.target.atr_res)', 'self.send_req_recv_res(atr_req, 1.0)']
+        else:
+            okk = srcs == ['ATR_REQ.decode(target.atr_req)']
+        # `atr_res = psl_res = None` is a chained assignment: collect separately
+        if not okk and dec == 'ATR_RES':
+            okk = set(srcs) <= {'ATR_RES.decode(self.target.atr_res)', 'None', 'self.send_req_recv_res(atr_req, 1.0)'} \
+                and 'ATR_RES.decode(self.target.atr_res)' in srcs
+        report.check(okk, rule, key(q, '%s is what the peer sent' % src_var), g.loc(),
+                     '%s is assigned from %s' % (src_var, srcs))
+
+
 def rule_provenance(report, prog):
     f = prog.func(LLC + '.activate')
     cfg = cfg_of(f)
@@ -102,27 +126,7 @@ def rule_provenance(report, prog):
             'llcp-sec': ('sec', True)}
     report.check(opts == want, 'C19-R3', key(init.qname, 'LLCP options miu/lto/lsc/agf/sec with documented defaults'), init.loc(),
                  'LogicalLinkController options changed: %r' % opts)
-    # DEP miu provenance
-    for q, src_var, dec in ((DEP + '.Initiator.activate', 'atr_res', 'ATR_RES'), (DEP + '.Target.activate', 'atr_req', 'ATR_REQ')):
-        g = prog.func(q)
-        sts = assigned_value(g, 'self.miu')
-        okk = len(sts) == 1 and ('%s.lr' % src_var) in norm(sts[0].value) and 'self.lr' not in norm(sts[0].value)
-        report.check(okk, 'C19-R1', key(q, 'self.miu derives from the peer\'s %s.lr' % src_var), g.loc(sts[0]) if sts else g.loc(),
-                     'NFC-DEP payload limit is not derived from the length reduction announced by the peer: %s' %
-                     [norm(s.value) for s in sts])
-        defs = assigned_value(g, src_var)
-        srcs = sorted(set(norm(s.value) for s in defs))
-        if dec == 'ATR_RES':
-            okk = srcs == ['ATR_RES.decode(self.target.atr_res)', 'None', 'self.send_req_recv_res(atr_req, 1.0)'] or \
-                srcs == ['ATR_RES.decode(self.target.atr_res)', 'self.send_req_recv_res(atr_req, 1.0)']
-        else:
-            okk = srcs == ['ATR_REQ.decode(target.atr_req)']
-        # `atr_res = psl_res = None` is a chained assignment: collect separately
-        if not okk and dec == 'ATR_RES':
-            okk = set(srcs) <= {'ATR_RES.decode(self.target.atr_res)', 'None', 'self.send_req_recv_res(atr_req, 1.0)'} \
-                and 'ATR_RES.decode(self.target.atr_res)' in srcs
-        report.check(okk, 'C19-R1', key(q, '%s is what the peer sent' % src_var), g.loc(),
-                     '%s is assigned from %s' % (src_var, srcs))
+    rule_dep_miu(report, prog)
     g = prog.func(DEP + '.Initiator.activate')
     for tgt, src in (('self.gbt', 'atr_res.gb'),):
         sts = assigned_value(g, tgt)
